@@ -224,8 +224,10 @@ class TestGen:
                 self.skip(reserved, depth)
             elif r < 0.87 and self.subs:
                 self.call(reserved)
-            elif r < 0.95:
+            elif r < 0.93:
                 self.scoped(reserved, depth)
+            elif r < 0.97:
+                self.unrolled(reserved)
             else:
                 self.jump(reserved, depth)
             self.slot()
@@ -298,6 +300,32 @@ class TestGen:
         s = self.rng.choice(ok)
         s["calls"] = s.get("calls", 0) + 1
         self.emit("jsr %s" % s["name"], "jsr")
+
+    def unrolled(self, reserved):
+        """an assembly-time `.loop`: one instruction per iteration, assertions inside see `index` of their iteration"""
+        rng = self.rng
+        k = rng.randrange(2, 5)
+        if self.budget < k + 2:
+            self.instruction(reserved)
+            return
+        opts = [("inx", 1, "x"), ("iny", 1, "y"), ("dex", 1, "x"), ("dey", 1, "y"), ("nop", 1, None), ("clc", 1, None),
+                ("inc $%02x" % rng.randrange(ZP_LO, ZP_HI), 2, None), ("asl", 1, "a"), ("sta $%02x" % rng.randrange(ZP_LO, ZP_HI), 2, None)]
+        opts = [o for o in opts if o[2] not in reserved]
+        ins, ln, _ = rng.choice(opts)
+        marker = self.slot(force=True)
+        self.nslot += 1
+        lsid = "L%d_%d" % (self.uid, self.nslot)
+        uname = "u%d_%d" % (self.uid, self.nslot)
+        d = len(self.scope) + 1
+        self.lines.append((d, ".loop %d {" % k))
+        self.lines.append((d + 1, ".const %s = index" % uname))
+        self.lines.append((d + 1, ins))
+        self.lines.append(("loopslot", lsid, list(self.scope), d + 1, {"k": k, "len": ln, "marker": marker, "uname": uname, "ins": ins}))
+        self.lines.append((d, "}"))
+        self.budget -= k
+        self.kinds["unrolled"] = self.kinds.get("unrolled", 0) + 1
+        if self.loop_depth:
+            self.in_loop_slots.add(lsid)
 
     def scoped(self, reserved, depth):
         rng = self.rng
@@ -428,7 +456,20 @@ def render(prj, inserts):
                 ind += 1
             put(ind, '.test "%s" {' % t["name"])
             for ln in t["gen"].lines:
-                if ln[0] == "slot":
+                if ln[0] == "loopslot":
+                    _, sid, scope, depth, meta = ln
+                    here = []
+                    for d in inserts.get(sid, []):
+                        line = "    " * (ind + depth) + d["text"]
+                        out.append(line)
+                        col = None
+                        if d.get("expr_at") is not None:
+                            col = len("    " * (ind + depth)) + d["expr_at"] + 1
+                        here.append(dict(d, slot=sid, line=len(out), column=col, test=t["name"], loop=meta))
+                    for i in range(meta["k"]):
+                        for d in here:
+                            placed.append(dict(d, iter=i))
+                elif ln[0] == "slot":
                     _, sid, scope, depth = ln
                     put(ind + depth, sid + ":")
                     for d in inserts.get(sid, []):
@@ -625,6 +666,49 @@ def choose_inserts(rng, prj, t, sym, steps):
             info["traces"] += 1
         if items:
             inserts[sid] = items
+    # assertions inside assembly-time loops
+    for ln in g.lines:
+        if ln[0] != "loopslot" or rng.random() < 0.25:
+            continue
+        _, lsid, scope, depth, meta = ln
+        pcs = [v for p, ty, v in sym if p == meta["marker"] or p.endswith("." + meta["marker"])]
+        if not pcs:
+            continue
+        pc0, k, L = pcs[0], meta["k"], meta["len"]
+        sts = []
+        for i in range(k):
+            vis = by_pc.get((pc0 + (i + 1) * L) & 0xFFFF, [])
+            sts.append(tuple(steps[vis[0]]) if vis else None)
+        cands = [("index < %d" % k, "true"), ("index != %d" % rng.randrange(k), "false"), ("%s == index" % meta["uname"], "true"),
+                 ("* == (%d + %d * index)" % (pc0 + L, L), "true"), ("defined(index)", "true"), ("index == %d" % rng.randrange(k), "false"),
+                 ("(index + 1) * 2 > index", "true"), ("* - %d == index * %d" % (pc0 + L, L), "true")]
+        if sts[0] is not None:
+            st = sts[0]
+            if meta["ins"] == "inx" and st[2] + k < 256:
+                cands.append(("cpu.x == (%d + index)" % st[2], "true"))
+            if meta["ins"] == "iny" and st[3] + k < 256:
+                cands.append(("cpu.y == (%d + index)" % st[3], "true"))
+            if meta["ins"] == "dex" and st[2] - k >= 0:
+                cands.append(("cpu.x + index == %d" % st[2], "true"))
+            j = rng.randrange(k)
+            if sts[j] is not None:
+                cands.append(("cpu.x == %d" % sts[j][2], "unknown"))
+                cands.append(("cpu.a == %d" % sts[j][1], "unknown"))
+        items = []
+        for _ in range(rng.choice([1, 1, 2])):
+            want = "true" if rng.random() < 0.7 else rng.choice(["false", "unknown"])
+            pool = [c for c in cands if c[1] == want] or cands
+            text, kind = rng.choice(pool)
+            msg = rng.choice([None, None, "in loop"])
+            d = {"kind": "assert", "expr": text, "message": msg, "text": ".assert " + text + ((" \"%s\"" % msg) if msg else ""),
+                 "expr_at": len(".assert ")}
+            items.append(d)
+            info[{"true": "true", "false": "false", "unknown": "unknown"}[kind]] += 1
+            info["unrolled"] = info.get("unrolled", 0) + 1
+        if rng.random() < 0.3:
+            items.append({"kind": "trace", "exprs": ["index", "*"], "text": ".trace (index, *)", "expr_at": None})
+            info["traces"] += 1
+        inserts[lsid] = items
     return inserts, info
 
 
@@ -786,6 +870,7 @@ def run(chk):
             dist["assert_at_revisited_pc"] += info["multi_visit"]
             dist["traces"] += info["traces"]
             dist["unreached_asserts"] += info["unreached"]
+            dist["assert_in_unrolled_loop"] = dist.get("assert_in_unrolled_loop", 0) + info.get("unrolled", 0)
             for k2, v2 in info.get("forms", {}).items():
                 dist.setdefault("assert_forms", {})
                 dist["assert_forms"][k2] = dist["assert_forms"].get(k2, 0) + v2
@@ -912,10 +997,18 @@ def check_project(chk, rng, probe, model, hook, mos, workdir, src, gen, dist, la
             for d in placed:
                 if d["test"] != name.split(".")[-1]:
                     continue
-                hits = [(p, v) for p, ty, v in a["symbols"] if p == d["slot"] or p.endswith("." + d["slot"])]
-                if not hits:
-                    continue
-                p, v = hits[0]
+                if "iter" in d:
+                    meta = d["loop"]
+                    mk = [(p, v) for p, ty, v in a["symbols"] if p == meta["marker"] or p.endswith("." + meta["marker"])]
+                    hits = [(p, v) for p, ty, v in a["symbols"] if p.split(".")[-1] == meta["uname"] and v == d["iter"]]
+                    if not mk or not hits:
+                        continue
+                    p, v = hits[0][0], mk[0][1] + (d["iter"] + 1) * meta["len"]
+                else:
+                    hits = [(p, v) for p, ty, v in a["symbols"] if p == d["slot"] or p.endswith("." + d["slot"])]
+                    if not hits:
+                        continue
+                    p, v = hits[0]
                 scope = p.split(".")[:-1]
                 snap = {"pc": v, "scope": scope, "symbols": [[p2, v2] for p2, ty2, v2 in a["symbols"]]}
                 if d["kind"] == "assert":
